@@ -140,36 +140,46 @@ func TestC01History(t *testing.T) {
 				s.hist = append(s.hist, "probe-missing")
 				return
 			}
-			s.checkAuth(n, mu.PW, "current")
-			var others []string
-			for on, ou := range s.m.Users {
-				if on != n {
-					others = append(others, ou.PW)
-				}
-			}
-			sort.Strings(others)
-			if len(others) > 2 {
-				others = others[:2]
-			}
-			nm := vlib.NearMisses(t, mu.PW, others)
-			if len(nm) > 0 {
-				k := rapid.IntRange(1, min(len(nm), 8)).Draw(t, "nprobes")
-				start := rapid.IntRange(0, len(nm)-1).Draw(t, "nmstart")
-				for i := 0; i < k; i++ {
-					x := nm[(start+i*3)%len(nm)]
-					s.checkAuth(n, x.PW, x.Kind)
-					s.kinds[x.Kind] = true
-					vlib.Class("nearmiss:" + strings.TrimRight(x.Kind, "0123456789"))
-					if want, _ := s.m.Auth(n, x.PW); want {
-						vlib.Class("nearmiss-expected-equal(scrypt key equivalence)")
+			// the three probe phases run in a generated order: a verdict must not depend on what was asked before
+			phases := rapid.Permutation([]string{"current", "near", "stale"}).Draw(t, "probe_order")
+			for _, ph := range phases {
+				switch ph {
+				case "current":
+					s.checkAuth(n, mu.PW, "current")
+				case "stale":
+					for _, old := range s.stale[n] {
+						s.checkAuth(n, old, "stale")
+						s.staleProbed = true
+					}
+				case "near":
+					var others []string
+					for on, ou := range s.m.Users {
+						if on != n {
+							others = append(others, ou.PW)
+						}
+					}
+					sort.Strings(others)
+					if len(others) > 2 {
+						others = others[:2]
+					}
+					nm := vlib.NearMisses(t, mu.PW, others)
+					if len(nm) > 0 {
+						k := rapid.IntRange(1, min(len(nm), 8)).Draw(t, "nprobes")
+						start := rapid.IntRange(0, len(nm)-1).Draw(t, "nmstart")
+						for i := 0; i < k; i++ {
+							x := nm[(start+i*3)%len(nm)]
+							s.checkAuth(n, x.PW, x.Kind)
+							s.kinds[x.Kind] = true
+							vlib.Class("nearmiss:" + strings.TrimRight(x.Kind, "0123456789"))
+							if want, _ := s.m.Auth(n, x.PW); want {
+								vlib.Class("nearmiss-expected-equal(scrypt key equivalence)")
+							}
+						}
+						s.nearProbed = true
 					}
 				}
-				s.nearProbed = true
 			}
-			for _, old := range s.stale[n] {
-				s.checkAuth(n, old, "stale")
-				s.staleProbed = true
-			}
+			vlib.Class("probe-order:" + phases[0] + "-first")
 			s.hist = append(s.hist, "probe:"+mu.Alg)
 		}
 
@@ -251,16 +261,16 @@ func TestC01History(t *testing.T) {
 			"":       func(t *rapid.T) { s.invariant() },
 		})
 		// final sweep: every user with current password and stale ones
-		for _, n := range s.m.Names() {
-			s.checkAuth(n, s.m.Users[n].PW, "final-current")
-		}
-		for n, olds := range s.stale {
-			for _, o := range olds {
+		for _, n := range vlib.ValidPool[:5] {
+			for _, o := range s.stale[n] {
 				s.checkAuth(n, o, "final-stale")
 				if s.m.Users[n] != nil {
 					s.staleProbed = true
 				}
 			}
+		}
+		for _, n := range s.m.Names() {
+			s.checkAuth(n, s.m.Users[n].PW, "final-current")
 		}
 		if s.changed && s.staleProbed && s.nearProbed {
 			var ks []string
